@@ -123,7 +123,7 @@ func Run(w *simworld.World, spec Spec, cb Callbacks) *Trace {
 	n := atomic.AddInt64(&seq, 1)
 	wf := fmt.Sprintf("wfh%dx%d", os.Getpid(), n)
 	var sb strings.Builder
-	fmt.Fprintf(&sb, "name: %s\ndefaults:\n  deploy_timeout: 3s\nroles:\n", wf)
+	fmt.Fprintf(&sb, "name: %s\ndefaults:\n  deploy_timeout: 6s\nroles:\n", wf)
 	taskIdx := map[string]int{}
 	hookIdx := map[string]int{}
 	for i := 0; i < spec.NTasks; i++ {
